@@ -327,8 +327,8 @@ theorem leakFree_sound (p : Stmt) (h : leakFree p = true) (fuel : Nat) (σ : Lis
 
 /-- same statement with the initial state spelled out -/
 theorem leakFree_sound' (p : Stmt) (h : leakFree p = true) (fuel : Nat) (σ : List Bool) :
-    (exec fuel p σ ⟨[], false, []⟩).2.1.held = [] ∧
-    (exec fuel p σ ⟨[], false, []⟩).2.1.leaked = false :=
+    (exec fuel p σ ⟨[], false, [], false⟩).2.1.held = [] ∧
+    (exec fuel p σ ⟨[], false, [], false⟩).2.1.leaked = false :=
   leakFree_sound p h fuel σ
 
 -- ---------- examples ----------
